@@ -36,7 +36,7 @@ class Tr:
             return f"(.self {lstr(e.attr)})"
         if isinstance(e, ast.Constant):
             if e.value is None:
-                return ".none"
+                return ".noneLit"
             if isinstance(e.value, int) and not isinstance(e.value, bool):
                 return f"(.int ({e.value}))"
             return unsupported(e)
@@ -65,8 +65,9 @@ class Tr:
             # `if c: return a` followed by `return b`
             s = body[0]
             return f"(.ite {self.exp(s.test)} {self.stmts(s.body)} {self.stmts(body[1:])})"
-        node = body[0] if body else ast.Pass()
-        return f"(.unsupported {lstr(ast.dump(node)[:120])})"
+        # outside the subset: the whole body, as its AST dump, is the translation (a pin: any change to it changes
+        # the generated term)
+        return f"(.unsupported {lstr(' ; '.join(ast.dump(b) for b in body))})"
 
 
 def base_names(c: ast.ClassDef) -> List[str]:
@@ -117,6 +118,20 @@ def collect() -> List[Tuple[str, str, str, List[str]]]:
     return found
 
 
+def email_pattern() -> str:
+    tree = ast.parse(open(os.path.join(PKG, "string.py")).read())
+    for node in tree.body:
+        if isinstance(node, ast.ClassDef) and node.name == "EmailPredicate":
+            for item in node.body:
+                if isinstance(item, ast.AnnAssign) and isinstance(item.target, ast.Name) and item.target.id == "pattern":
+                    v = item.value
+                    if (isinstance(v, ast.Call) and ast.unparse(v.func) == "re.compile" and len(v.args) == 1
+                            and not v.keywords and isinstance(v.args[0], ast.Constant) and isinstance(v.args[0].value, str)):
+                        return v.args[0].value
+                    return "<not a plain re.compile(literal)>: " + ast.unparse(v) if v is not None else "<no default>"
+    return "<class EmailPredicate not found>"
+
+
 def render() -> str:
     found = collect()
     lines = ["/- GENERATED by harness/pysrc.py from the current source of /repo/koda_validate — do not edit -/",
@@ -128,7 +143,8 @@ def render() -> str:
               "/-- the classes found, with their kind and dataclass fields -/",
               "def classes : List (String × String × List String) := ["]
     lines.append(",\n".join(f"  ({lstr(n)}, {lstr(k)}, [{', '.join(lstr(f) for f in fs)}])" for n, k, _, fs in found))
-    lines += ["]", "", "end Koda.Src", ""]
+    lines += ["]", "", "/-- default pattern of EmailPredicate -/", f"def emailPattern : String := {lstr(email_pattern())}", "",
+              "end Koda.Src", ""]
     return "\n".join(lines)
 
 
